@@ -23,9 +23,17 @@ func runLong(c *Ctx, sh *shared, dir string) {
 	var n *Node
 	tcpPort := 0
 	statusLog := filepath.Join(dir, "status.log")
+	var more []*longSession // listeners.go: every other kind of control-service listener
 	for try := 0; ; try++ { // a free port may have been taken by someone else by the time it is used
 		tcpPort = freePort()
-		n = NewNode(c.Bin, "c05long", dir, workCommandYAML(dir)+fmt.Sprintf("- control-service:\n    service: ctltcp\n    tcplisten: 127.0.0.1:%d\n", tcpPort))
+		n = NewNode(c.Bin, "c05long", dir, "")
+		moreYAML, ms, kerr := listenerKinds(c.Bin, dir, n.ID, n.Sock)
+		if kerr != nil {
+			fail("certificates for the TLS control services: "+kerr.Error(), "harness-start")
+			return
+		}
+		more = ms
+		n.Extra = workCommandYAML(dir) + fmt.Sprintf("- control-service:\n    service: ctltcp\n    tcplisten: 127.0.0.1:%d\n", tcpPort) + moreYAML
 		n.Env = []string{"VERIF_STATUS_LOG=" + statusLog}
 		err := startNode(n)
 		if err == nil {
@@ -65,20 +73,19 @@ func runLong(c *Ctx, sh *shared, dir string) {
 	}
 	t0 := time.Now()
 	askLines := countLines(statusLog)
-	type session struct {
-		via, addr string
-		got       []byte
-		ended     bool
-		err       error
-		tEnd      time.Duration
+	plainSession := func(via, addr string) *longSession {
+		return &longSession{via: via, fetch: func(unit string, timeout time.Duration) ([]byte, bool, string, error) {
+			got, ended, err := WorkResults(addr, unit, 0, timeout)
+			return got, ended, "", err
+		}}
 	}
-	sessions := []*session{{via: "unix socket", addr: n.Sock}, {via: "tcp", addr: fmt.Sprintf("tcp:127.0.0.1:%d", tcpPort)}}
+	sessions := append([]*longSession{plainSession("unix socket", n.Sock), plainSession("tcp", fmt.Sprintf("tcp:127.0.0.1:%d", tcpPort))}, more...)
 	var wg sync.WaitGroup
 	for _, s := range sessions {
 		wg.Add(1)
-		go func(s *session) {
+		go func(s *longSession) {
 			defer wg.Done()
-			s.got, s.ended, s.err = WorkResults(s.addr, unit, 0, time.Duration(seconds+60)*time.Second)
+			s.got, s.ended, s.broke, s.err = s.fetch(unit, time.Duration(seconds+60)*time.Second)
 			s.tEnd = time.Since(t0)
 		}(s)
 	}
@@ -99,6 +106,11 @@ func runLong(c *Ctx, sh *shared, dir string) {
 		switch {
 		case s.err != nil:
 			im.Violate(fmt.Sprintf("work results (%s) of the long unit failed: %v", s.via, s.err), "results-error", info)
+		case s.broke != "" && len(s.got) < len(want) && bytes.HasPrefix(want, s.got):
+			// something happened (not: something did not happen in time): the connection was terminated under the stream
+			info["read_error"] = s.broke
+			im.Violate(fmt.Sprintf("work results 0 (%s) of a unit that writes for %d s was broken off after %v (%s) with %d of %d bytes, while the unit was still running (it finished after %v): a stream open for a long time ends before the unit does",
+				s.via, seconds, s.tEnd.Round(100*time.Millisecond), s.broke, len(s.got), len(want), tFinal.Round(100*time.Millisecond)), "results-long-stream-ended-early", info)
 		case s.ended && len(s.got) < len(want) && bytes.HasPrefix(want, s.got):
 			im.Violate(fmt.Sprintf("work results 0 (%s) of a unit that writes for %d s ended cleanly after %v with %d of %d bytes, while the unit was still running (it finished after %v): a stream open for a long time ends before the unit does",
 				s.via, seconds, s.tEnd.Round(100*time.Millisecond), len(s.got), len(want), tFinal.Round(100*time.Millisecond)), "results-long-stream-ended-early", info)
